@@ -151,7 +151,7 @@ def noteTrig (d : DS) (s : St) : DS :=
 /-! ### one op on model and spec -/
 
 def decideFn (conf : Conf) (k : FlapConsts) : FlapDecide := floatDecide k conf.low conf.high
-def flapFn (conf : Conf) (k : FlapConsts) : FlapFn := goFlap (Gen.flapStartOffset.getD 0) k conf.low conf.high
+def flapFn (conf : Conf) (k : FlapConsts) : FlapFn := goFlap k conf.low conf.high
 
 /-- `NewGroup` after a restart: `restoreEventState(id, first.Time(), …)` from the ID's event state in the topic.
 The spec side is untouched: for the property a restart is not an event of the ID's history. -/
